@@ -44,6 +44,9 @@ def programs(tier):
                     if tier == "quick" and order >= 3 and named and list(r) != sorted(r):
                         continue
                     out.append(("massaction", dict(reactants=list(r), products=["C"], named=named)))
+    # one parameter dictionary object shared with an earlier reaction that has other reactants
+    for first, r in ((["A"], ["B"]), ([], ["A", "B"]), (["A", "B"], ["A", "A"]), (["B", "B"], ["A"])):
+        out.append(("massaction", dict(reactants=r, products=["C"], named=True, shared_first=first)))
     # delayed reactions: the exported law is the rate of the firing itself, whatever happens later
     for fam in ("fixed", "gaussian", "gamma"):
         for r, dre, dpr in ((["A", "A"], [], ["C"]), (["A", "B", "A"], ["B"], ["C", "C"]), (["A"], [], ["C"])):
@@ -105,7 +108,13 @@ def export_job(interp, c, case):
     T = interp.load("bioscrape.types")
     values = {"k": 0.000123456789012, "K": 2.5000001234567, "n": 2.0}       # values with many significant digits, one of them small
     rx, params = build(T, ptype, spec, values)
-    M = T.ns["Model"](species=list(SPECIES), reactions=[rx], parameters=params,
+    ri = 0
+    rxs = [rx]
+    if spec.get("shared_first") is not None:
+        # an earlier mass-action reaction written with the SAME parameter dictionary object (other reactants): the reaction under test is the second
+        rxs = [(list(spec["shared_first"]), ["C"], ptype, rx[3]), rx]
+        ri = 1
+    M = T.ns["Model"](species=list(SPECIES), reactions=rxs, parameters=params,
                       initial_condition_dict={"A": 3, "B": 4, "C": 0})
     doc, sm = M.generate_sbml_model(stochastic_model=stochastic)
     tag = "%s %s %s export" % (ptype, {k: v for k, v in spec.items() if k != "products"}, "stochastic" if stochastic else "deterministic")
@@ -120,8 +129,8 @@ def export_job(interp, c, case):
         fdoc = libsbml.readSBMLFromFile(path)
     finally:
         os.unlink(path)
-    law_g = libsbml.formulaToL3String(sm.getReaction(0).getKineticLaw().getMath())
-    law_f = libsbml.formulaToL3String(fdoc.getModel().getReaction(0).getKineticLaw().getMath())
+    law_g = libsbml.formulaToL3String(sm.getReaction(ri).getKineticLaw().getMath())
+    law_f = libsbml.formulaToL3String(fdoc.getModel().getReaction(ri).getKineticLaw().getMath())
     ok = c.prove(law_f == law_g, "%s: write_sbml_model writes the kinetic law of generate_sbml_model with the same options (%s / %s)" % (tag, law_f, law_g),
                  info={"sig": "write_sbml_model law differs from generate_sbml_model (%s)" % ("stochastic" if stochastic else "deterministic"),
                        "what": "%s: file law '%s', generated law '%s'" % (tag, law_f, law_g)})
@@ -156,11 +165,11 @@ def export_job(interp, c, case):
         if mname in psym:
             env[p.getId()] = psym[mname]
     doc_species = {s.getId() for s in sm.getListOfSpecies()}
-    r = sm.getReaction(0)
+    r = sm.getReaction(ri)
     kl = r.getKineticLaw()
     law = kl.getMath()
     text = libsbml.formulaToL3String(law)
-    pd = M.reaction_definitions[0][3]       # parameter dict after numeric values were replaced by dummy parameters
+    pd = M.reaction_definitions[ri][3]       # parameter dict after numeric values were replaced by dummy parameters
     roles = {}
     if ptype not in ("massaction", "general"):
         roles = {str(pd["k"]): "<k>", str(pd["K"]): "<K>", str(pd["n"]): "<n>", spec["s1"]: "<s1>"}
@@ -190,7 +199,7 @@ def export_job(interp, c, case):
     except (UndefinedIdentifier, ValueError) as e:
         rep(False, "the kinetic law cannot be evaluated as plain SBML mathematics: %s" % e)
         return
-    prop = M.propensities[0]
+    prop = M.propensities[ri]
     sv = np.array([state[s] for s in M.get_species_list()], dtype=object)
     if stochastic:
         mine = prop.get_stochastic_propensity(ptr(interp, sv), ptr(interp, M.params_values), 0)
